@@ -211,7 +211,7 @@ def gEnv : Env where
     | none => .raise (.user kName)
   cached := fun c => c != 1
   allowNone := fun _ => false
-  refs := fun _ => .int 10
+  refs := fun _ => some (.int 10)
   maxdepth := 20
 
 theorem gEnv_ranked : Ranked gEnv idLt :=
